@@ -263,6 +263,39 @@ Definition jb_spec_ok (c : jbcase) : bool :=
   (* in the end every accepted job ran exactly once, and nothing else *)
   nodup_nats (jb_final_started c) && nset_eqb (jb_final_started c) (map jb_id acc).
 
+(** * the package-level job manager with both submitters of renewal jobs for one managed name:
+      Config.ManageAsync on a stored certificate inside its renewal window (issuer failing
+      retryably: the job stays in back-off), then Cache.RenewManagedCertificates.  Observed on
+      the job manager (snapshot hook), relative to its state before the case: names added and
+      workers added after ManageAsync, and after the maintenance pass. *)
+
+Record grcase := GR { gr_names1 : nat; gr_workers1 : nat; gr_names2 : nat; gr_workers2 : nat }.
+
+(** both submit under the same job name: the second submission is a duplicate *)
+Definition gr_model : option (nat * nat * nat * nat) :=
+  let n := [114%N] in
+  match jstep 1000 jinit (Submit (Job 1 n)) with
+  | Some s0 =>
+      let s1 := settle 4 1000 s0 in
+      match jstep 1000 s1 (Submit (Job 2 n)) with
+      | Some s2 => let s3 := settle 4 1000 s2 in
+                   Some (length (names s1), active s1, length (names s3), active s3)
+      | None => None
+      end
+  | None => None
+  end.
+
+Definition gr_model_ok (c : grcase) : bool :=
+  match gr_model with
+  | Some (n1, a1, n2, a2) =>
+      (gr_names1 c =? n1)%nat && (gr_workers1 c =? a1)%nat && (gr_names2 c =? n2)%nat && (gr_workers2 c =? a2)%nat
+  | None => false
+  end.
+
+(** at most one background renewal job per name queued or running at any time *)
+Definition gr_spec_ok (c : grcase) : bool :=
+  (gr_names1 c <=? 1)%nat && (gr_workers1 c <=? 1)%nat && (gr_names2 c <=? 1)%nat && (gr_workers2 c <=? 1)%nat.
+
 (** * CA selection *)
 
 Record cacase := CACase { ca_given : str; ca_given_test : str;   (* the template given to NewACMEIssuer *)
@@ -392,7 +425,7 @@ Definition e2e_spec_ok (c : ecase) : bool :=
 
 (** * wire *)
 
-Inductive tcase := TRetry (c : rcase) | TJobs (c : jcase) | TCA (c : cacase) | TE2E (c : ecase) | TJBurst (c : jbcase).
+Inductive tcase := TRetry (c : rcase) | TJobs (c : jcase) | TCA (c : cacase) | TE2E (c : ecase) | TJBurst (c : jbcase) | TGRenew (c : grcase).
 
 Definition get_zlist : dec (list Z) := get_list get_z.
 Definition get_oatt : dec oatt := (n <- get_z ;; s <- get_z ;; e <- get_z ;; o <- get_z ;; ret (OAtt n s e o))%Z.
@@ -422,7 +455,8 @@ Definition get_case : dec tcase :=
    else if k =? 2 then (c <- get_jcase ;; ret (TJobs c))
    else if k =? 3 then (c <- get_cacase ;; ret (TCA c))
    else if k =? 4 then (c <- get_ecase ;; ret (TE2E c))
-   else (c <- get_jbcase ;; ret (TJBurst c)))%Z.
+   else if k =? 5 then (c <- get_jbcase ;; ret (TJBurst c))
+   else (a <- get_nat ;; b <- get_nat ;; x <- get_nat ;; y <- get_nat ;; ret (TGRenew (GR a b x y))))%Z.
 
 Definition check_line (l : list Z) : Z :=
   match decode get_case l with
@@ -431,6 +465,7 @@ Definition check_line (l : list Z) : Z :=
   | Some (TCA c) => code (ca_model_ok c) (ca_spec_ok c)
   | Some (TE2E c) => code (e2e_model_ok c) (e2e_spec_ok c)
   | Some (TJBurst c) => code (jb_model_ok c) (jb_spec_ok c)
+  | Some (TGRenew c) => code (gr_model_ok c) (gr_spec_ok c)
   | None => code_decode_error
   end.
 
@@ -446,5 +481,6 @@ Definition explain_line (l : list Z) : list Z :=
   | Some (TCA c) => [if ca_model_ok c then 1 else 0]
   | Some (TE2E c) => map (fun a => if eatt_model_ok c a then 1 else 0) (e_atts c)
   | Some (TJBurst c) => [if jb_model_ok c then 1 else 0]
+  | Some (TGRenew c) => [if gr_model_ok c then 1 else 0]
   | None => []
   end.
